@@ -65,10 +65,13 @@ type Ctx struct {
 	Obs      []*Obligation
 	Notes    []string
 	Fixtures []FixtureResult
-	mins     map[string]int
-	ruleDoc  map[string]string
-	ruleSeq  []string
-	funcs    map[string]bool
+	// Extra holds additional coverage entries written into the evidence (thorough tier:
+	// the neighbourhood sweep).
+	Extra   map[string]interface{}
+	mins    map[string]int
+	ruleDoc map[string]string
+	ruleSeq []string
+	funcs   map[string]bool
 }
 
 // NewCtx creates a context.
@@ -327,6 +330,11 @@ func (c *Ctx) Finish(root string, findings []Finding, seed int64, started time.T
 		},
 		"wall_s":     time.Since(started).Seconds(),
 		"violations": len(viol),
+	}
+	if cov, ok := ev["coverage"].(map[string]interface{}); ok {
+		for k, v := range c.Extra {
+			cov[k] = v
+		}
 	}
 	b, _ := json.MarshalIndent(ev, "", " ")
 	if err := os.WriteFile(filepath.Join(evdir, c.Prop+".json"), b, 0o644); err != nil {
